@@ -3,8 +3,8 @@ CONSTANTS
   CwdVariant = "code"
   StatGuard = FALSE
   CcStopsAtExisting = FALSE
-  MaxDepth = 4
-  Universe = "chain"
+  MaxDepth = 2
+  Universe = "linkfull"
   Emit = TRUE
 INVARIANT CTypeOK
 INVARIANT InvResolves
@@ -12,5 +12,6 @@ INVARIANT InvRestored
 INVARIANT InvStack
 INVARIANT InvRunAgrees
 INVARIANT InvOutcome
+INVARIANT InvTargetIrrelevant
 INVARIANT EmitBehaviour
 CHECK_DEADLOCK FALSE
